@@ -152,7 +152,9 @@ def gen_calls_3d(sp, V, gm, rng, n):
         if not np.any(np.isclose(zs, 0.0)):
             # the coordinate 0 on an axis that does not hold it (it is a coordinate like any other, not "bound omitted")
             t = rng.randrange(nT)
-            for a in ((t, 0, float(zs[-1])), (t, float(zs[0]), 0), (t, 0.0, None), (t, None, 0.0), (t, None, 0)):
+            # (as an exclusive stop, the coordinate one interval past the last sample is valid: not used as a stop when that is 0)
+            stop_ok = bool(np.isclose(float(zs[-1]) + dz, 0.0))
+            for a in ((t, 0, float(zs[-1])), (t, 0.0, None)) + (() if stop_ok else ((t, float(zs[0]), 0), (t, None, 0.0), (t, None, 0))):
                 calls.append(('r', 'get_trace_by_coord', a, 'absent-coordinate-zero', None))
             calls.append(('r', 'read_zslice_coord', (0,), 'absent-coordinate-zero', None))
     # diagonals
@@ -201,7 +203,8 @@ def gen_calls_2d(sp, V, rng, n):
     calls.append(('r', 'get_trace_by_coord', (t, float(zs[0] - dz), float(zs[-1])), 'absent-coordinate', None))
     calls.append(('r', 'get_trace_by_coord', (t, float(zs[0]), float(zs[-1] + 2 * dz)), 'absent-coordinate', None))
     if not np.any(np.isclose(zs, 0.0)):
-        for a in ((t, 0, float(zs[-1])), (t, float(zs[0]), 0), (t, 0.0, None), (t, None, 0.0)):
+        stop_ok = bool(np.isclose(float(zs[-1]) + dz, 0.0))
+        for a in ((t, 0, float(zs[-1])), (t, 0.0, None)) + (() if stop_ok else ((t, float(zs[0]), 0), (t, None, 0.0))):
             calls.append(('r', 'get_trace_by_coord', a, 'absent-coordinate-zero', None))
     for m, a in (('read_inline', (0,)), ('read_crossline', (0,)), ('read_zslice', (0,)), ('read_subvolume', (0, 1, 0, 1, 0, 1)),
                  ('read_volume', ()), ('read_correlated_diagonal', (0,)), ('read_anticorrelated_diagonal', (0,)),
